@@ -4,7 +4,6 @@ package binary
 
 import (
 	"bytes"
-	"io"
 
 	"go.uber.org/thriftrw/wire"
 )
@@ -12,29 +11,15 @@ import (
 func init() {
 	verifHarnesses["h03a"] = h03a
 	verifHarnesses["h03a_witness"] = h03a_witness
+	verifHarnesses["h03b"] = h03b
+	verifHarnesses["h03c"] = h03c
 }
 
-// zzOneShot is a non-seekable reader that hands out everything it has.
-type zzOneShot struct {
-	b   []byte
-	off int
-}
-
-func (r *zzOneShot) Read(p []byte) (int, error) {
-	if r.off >= len(r.b) {
-		return 0, io.EOF
-	}
-	n := copy(p, r.b[r.off:])
-	r.off += n
-	return n, nil
-}
-
-// h03a: family A of C03 — arbitrary bytes, arbitrary requested type.
-func h03a() {
-	n := verifParam("n")
-	b := verifBytes(n)
-	t := wire.Type(verifByte())
-
+// zzCheckDecode is the body of C03 for one input b and requested type t:
+// decode + force, re-encode == consumed prefix, Skip (seekable and not)
+// consumes the same bytes, streaming decode agrees.
+func zzCheckDecode(b []byte, t wire.Type) {
+	n := len(b)
 	rd := NewReader(bytes.NewReader(b))
 	v, off, err := rd.ReadValue(t, 0)
 	var everr error
@@ -44,7 +29,8 @@ func h03a() {
 	ok := err == nil && everr == nil
 	verifObserveBool("ok", ok)
 
-	// Skip over a seekable reader and over a non-seekable one.
+	// Skip over a seekable reader and over a non-seekable one. The pooled
+	// StreamReader used above is reused here (dirty-pool hygiene).
 	br := bytes.NewReader(b)
 	sr := NewStreamReader(br)
 	serr := sr.Skip(t)
@@ -56,31 +42,113 @@ func h03a() {
 	serr2 := sr2.Skip(t)
 	sr2.Close()
 
-	if ok {
-		verifObserveInt("off", off)
-		verifAssert(off >= 0 && off <= int64(n), "offset-in-range")
-		v2, off2, err2 := rd.ReadValue(t, 0)
-		verifAssert(err2 == nil && off2 == off, "decode-deterministic")
-		var buf bytes.Buffer
-		eerr := Default.Encode(v2, &buf)
-		verifAssert(eerr == nil, "reencode-ok")
-		out := buf.Bytes()
-		verifObserveBytes("reenc", out)
-		verifAssert(len(out) == int(off), "reencode-len")
-		var diff byte
-		for i := range out {
-			diff |= out[i] ^ b[i]
-		}
-		verifAssert(diff == 0, "reencode-bytes")
-		verifAssert(serr == nil, "skip-seek-ok")
-		verifAssert(seekPos == off, "skip-seek-len")
-		verifAssert(serr2 == nil, "skip-stream-ok")
-		verifAssert(int64(os.off) == off, "skip-stream-len")
+	// pure streaming decode over the non-seekable reader
+	os3 := &zzOneShot{b: b}
+	sr3 := NewStreamReader(os3)
+	sn, sterr := zzStreamRead(sr3, t)
+	sr3.Close()
+
+	if !ok {
+		return
 	}
+	verifObserveInt("off", off)
+	verifAssert(off >= 0 && off <= int64(n), "offset-in-range")
+	v2, off2, err2 := rd.ReadValue(t, 0)
+	verifAssert(err2 == nil && off2 == off, "decode-deterministic")
+	var buf bytes.Buffer
+	eerr := Default.Encode(v2, &buf)
+	verifAssert(eerr == nil, "reencode-ok")
+	out := buf.Bytes()
+	verifObserveBytes("reenc", out)
+	verifAssert(len(out) == int(off), "reencode-len")
+	verifAssert(zzBytesDiff(out, b) == 0, "reencode-bytes")
+	verifAssert(serr == nil, "skip-seek-ok")
+	verifAssert(seekPos == off, "skip-seek-len")
+	verifAssert(serr2 == nil, "skip-stream-ok")
+	verifAssert(int64(os.off) == off, "skip-stream-len")
+	verifAssert(sterr == nil, "stream-decode-ok")
+	verifAssert(int64(os3.off) == off, "stream-decode-len")
+	senc := zzSpecEncode(sn, nil)
+	verifAssert(len(senc) == int(off), "stream-decode-reencode-len")
+	verifAssert(zzBytesDiff(senc, b) == 0, "stream-decode-value")
+}
+
+// h03a: family A — arbitrary bytes, arbitrary requested type.
+func h03a() {
+	n := verifParam("n")
+	b := verifBytes(n)
+	t := wire.Type(verifByte())
+	zzCheckDecode(b, t)
 	verifReached("end")
 }
 
 func h03a_witness() {
 	h03a()
 	verifAssert(false, "reachable")
+}
+
+// h03b: family B — a valid encoding of a bounded-shape value, truncated at
+// an arbitrary offset or with one (two) arbitrary byte substitutions.
+func h03b() {
+	depth := verifParam("depth")
+	budget := verifParam("budget")
+	k := verifParam("k")
+	maxBin := verifParam("bin")
+	muts := verifParam("muts")
+	t := zzChooseType(depth)
+	v := zzBuild(t, depth, &budget, k, maxBin)
+	enc := zzSpecEncode(v, nil)
+	b := append([]byte(nil), enc...)
+	if verifChoice(2) == 0 {
+		cut := verifChoice(len(b) + 1)
+		b = b[:cut]
+	} else {
+		for m := 0; m < muts; m++ {
+			pos := verifChoice(len(b))
+			b[pos] = verifByte()
+		}
+	}
+	zzCheckDecode(b, t)
+	verifReached("end")
+}
+
+// h03c: segmentation independence — every decoder and Skip give the same
+// result over an arbitrarily chunking non-seekable reader (including one
+// zero-length read) as over a one-shot reader.
+func h03c() {
+	n := verifParam("n")
+	b := verifBytes(n)
+	t := wire.Type(verifByte())
+
+	o1 := &zzOneShot{b: b}
+	s1 := NewStreamReader(o1)
+	n1, e1 := zzStreamRead(s1, t)
+	s1.Close()
+
+	c1 := &zzChunky{b: b, zeros: 1}
+	s2 := NewStreamReader(c1)
+	n2, e2 := zzStreamRead(s2, t)
+	s2.Close()
+
+	verifAssert((e1 == nil) == (e2 == nil), "chunk-decode-errorness")
+	if e1 == nil && e2 == nil {
+		verifAssert(o1.off == c1.off, "chunk-decode-consumed")
+		same, diff := zzDiff(n1, n2)
+		verifAssert(same, "chunk-decode-shape")
+		verifAssert(diff == 0, "chunk-decode-leaves")
+	}
+
+	o2 := &zzOneShot{b: b}
+	s3 := NewStreamReader(o2)
+	e3 := s3.Skip(t)
+	s3.Close()
+	c2 := &zzChunky{b: b, zeros: 1}
+	s4 := NewStreamReader(c2)
+	e4 := s4.Skip(t)
+	s4.Close()
+	verifAssert((e3 == nil) == (e4 == nil), "chunk-skip-errorness")
+	if e3 == nil && e4 == nil {
+		verifAssert(o2.off == c2.off, "chunk-skip-consumed")
+	}
+	verifReached("end")
 }
